@@ -48,6 +48,7 @@ pub proof fn lemma_free_nodes_push_vacant<N, Ix: IndexType>(ns0: Seq<Node<Option
 
 // ---- the incidence lists and the edge free list, built over a growing prefix of the edge array
 /// appending a vacant edge slot x that points to the old head of the edge free list
+#[verifier::spinoff_prover]
 pub proof fn lemma_edges_push_vacant<N, E, Ix: IndexType>(ns: Seq<Node<Option<N>, Ix>>, es0: Seq<Edge<Option<E>, Ix>>, es1: Seq<Edge<Option<E>, Ix>>,
         out: Seq<Seq<int>>, inn: Seq<Seq<int>>, fe_head: EdgeIndex<Ix>, fe: Seq<int>)
     requires slists_ok(ns, es0, 0, out, -1), slists_ok(ns, es0, 1, inn, -1), free_edges_ok(es0, fe_head, fe),
